@@ -33,15 +33,15 @@ type Violation struct {
 
 // ServerInst is one incarnation of the server process.
 type ServerInst struct {
-	S      *hotline.Server
-	Ctx    context.Context
-	Cancel context.CancelFunc
-	L, LT  *simnet.Listener
-	Board  *mobius.FlatNews
-	Bans   *mobius.BanFile
-	News   *mobius.ThreadedNewsYAML
-	Accts  *mobius.YAMLAccountManager
-	Agree  *mobius.Agreement
+	S        *hotline.Server
+	Ctx      context.Context
+	Cancel   context.CancelFunc
+	L, LT    *simnet.Listener
+	Board    *mobius.FlatNews
+	Bans     *mobius.BanFile
+	News     *mobius.ThreadedNewsYAML
+	Accts    *mobius.YAMLAccountManager
+	Agree    *mobius.Agreement
 	StartErr error
 }
 
@@ -66,6 +66,9 @@ type World struct {
 	Banner    []byte
 	Acc       Acc
 	over      map[string]int
+	// AfterBubble holds checks that need the real clock (a search with a wall-clock timeout): they run after the
+	// synctest bubble has ended, where time.After is real, and may still call Violate and Probe
+	AfterBubble []func()
 }
 
 var runRoot string
